@@ -40,7 +40,7 @@ PROPS = {
     },
     "C07": {
         "generators": [{"name": "C07"}],
-        "explanation": "Conc.v: histories of atomic actions are linearizable by construction given the per-action theorems (C01, C05); the atomicity premise is ShapeCheck.all_guarded / single_region over the regenerated lock structure. Search: porcupine on recorded concurrent histories.",
+        "explanation": "Linz.v: every concurrent history (call / return events of any number of threads, each operation taking effect at one atomic action in between, pending operations allowed) of the chain-index database is linearizable in the sense of Herlihy and Wing with respect to the plain map, also with compaction running as background micro-steps (C07_linearizable, C07_linearizable_microsteps, read-your-writes corollary; sensitivity: a Get split in two instants is not). The atomicity premise is ShapeCheck.all_guarded / single_region over the regenerated lock structure and Conc.pogreb_race_free. Search: porcupine on recorded concurrent histories; readers of acknowledged keys while the database grows.",
         "assumptions": COMMON_ASSUME + ["sync.RWMutex provides mutual exclusion (trusted)"],
     },
     "C08": {
